@@ -314,15 +314,66 @@ def load_fixtures():
 
 
 # ----------------------------------------------------------------------------- archive writers (reference packers)
-def write_zip(members, method):
-    bio = io.BytesIO()
-    with zipfile.ZipFile(bio, "w", compression=method) as zf:
+class _Unseekable(io.RawIOBase):
+    """A sink zipfile cannot seek in: members are written with data descriptors (flag bit 3), as streaming packers do."""
+
+    def __init__(self):
+        self.buf = io.BytesIO()
+
+    def write(self, d):
+        return self.buf.write(d)
+
+    def writable(self):
+        return True
+
+    def seekable(self):
+        return False
+
+    def flush(self):
+        pass
+
+
+def write_zip(members, method, variant="plain", rng=None):
+    """variant: 'plain' (writestr) | 'zip64-local' (some members through ZipFile.open(force_zip64=True): ZIP64 extra block in
+    the LOCAL header only, so local and central extra fields differ) | 'stream' (unseekable sink: data descriptors) |
+    'ut-extra' (extended-timestamp extra field on every member, as Info-ZIP writes)."""
+    sink = _Unseekable() if variant == "stream" else io.BytesIO()
+    with zipfile.ZipFile(sink, "w", compression=method) as zf:
         for name, kind, data in members:
             if kind == "dir":
                 zf.writestr(zipfile.ZipInfo(name.rstrip("/") + "/"), b"")
+                continue
+            zi = zipfile.ZipInfo(name)
+            zi.compress_type = method
+            if variant == "ut-extra":
+                zi.extra = b"UT\x05\x00\x03" + struct.pack("<I", 1_700_000_000)
+            if variant == "zip64-local" and (rng is None or rng.random() < 0.6):
+                with zf.open(zi, "w", force_zip64=True) as f:
+                    f.write(data)
             else:
-                zf.writestr(zipfile.ZipInfo(name), data, compress_type=method)
-    return bio.getvalue()
+                zf.writestr(zi, data, compress_type=method)
+    return sink.buf.getvalue() if variant == "stream" else sink.getvalue()
+
+
+def reshape_name(rng, members):
+    """Give one supported visible data member a name of another SHAPE that reference packers store verbatim (tar -P,
+    ZipFile.writestr): absolute, './', '//', '..', './' inside, leading space, drive-letter/backslash.  The label of its
+    result must still be archive!/<stored name>.  -> (members, shape or None)"""
+    cands = [i for i, m in enumerate(members) if m[1] == "data" and expected_member(m[0], m[1])]
+    if not cands or rng.random() >= 0.3:
+        return members, None
+    i = rng.choice(cands)
+    name, kind, data = members[i]
+    base = os.path.basename(name)
+    shape = rng.choice(["abs", "abs-deep", "dot", "dslash", "dotdot", "innerdot", "updir", "space", "drive"])
+    new = {"abs": "/" + name, "abs-deep": "/srv/share/" + base, "dot": "./" + name, "dslash": "a//" + name,
+           "dotdot": "x/../" + base, "innerdot": "dir/./" + base, "updir": "../" + base, "space": " " + base,
+           "drive": "C:\\win\\" + base}[shape]
+    if any(m[0] == new for m in members):
+        return members, None
+    members = list(members)
+    members[i] = (new, kind, data)
+    return members, shape
 
 
 def write_tar(members, comp, fmt=tarfile.PAX_FORMAT, extra=None):
@@ -584,8 +635,13 @@ def impl_parse(arch):
     proxy = LzmaProxy()
     real = sz.lzma
     sz.lzma = proxy
+    import resource
+    soft, hard = resource.getrlimit(resource.RLIMIT_AS)
     try:
         try:
+            # a mutated header may claim billions of files: cap the address space so that the allocation fails fast
+            # (MemoryError -> case skipped) instead of exhausting the shared machine
+            resource.setrlimit(resource.RLIMIT_AS, (min(hard, 12 << 30) if hard != resource.RLIM_INFINITY else 12 << 30, hard))
             rd = sz.SevenZipReader(io.BytesIO(arch))
         except sz.Encrypted7zError:
             return "Enc", None, proxy.calls
@@ -595,6 +651,7 @@ def impl_parse(arch):
             return "Bad", None, proxy.calls
     finally:
         sz.lzma = real
+        resource.setrlimit(resource.RLIMIT_AS, (soft, hard))
     if len(rd._files) > 2000:
         return "skip", None, proxy.calls
     pack = None if not rd._pack_positions else (rd._pack_positions[0] - 32, list(rd._pack_sizes))
@@ -743,6 +800,7 @@ def run(ctx):
     casesz, infoz = [], []
     casest, infot = [], []
     apaths = ["arch.7z", "dir/my archive.7z", None, ""]
+    sweep = []   # (format, archive bytes, path label): a sample re-run under other environments at the end
 
     # ================================================================= 7z, standard layouts
     n7 = ctx.n(160, 1500)
@@ -759,6 +817,8 @@ def run(ctx):
         info7.append(("std", desc, [m[0] for m in members]))
         ctx.case(("7z", desc, [(m[0], m[1], len(m[2])) for m in members]), len(members) >= 2,
                  kind=f"7z:{desc['layout']}:{desc['coder']}")
+        if len(sweep) < 40 and i % 4 == 0:
+            sweep.append(("7z", arch, apath or "a.7z"))
         nfold = len(desc["cuts"])
         key = f"7z-multi-folder:{desc['coder']}" if nfold >= 2 else f"7z-members:{desc['layout']}:{desc['coder']}"
         ok = check_members(ctx, key, "7z member does not come out as itself", "7z", desc, members, arch, apath or "a.7z",
@@ -934,16 +994,19 @@ def run(ctx):
         members, ndup = add_duplicates(rng, gen_members(rng, 6))
         method = rng.choice([zipfile.ZIP_STORED, zipfile.ZIP_DEFLATED])
         mname = "stored" if method == zipfile.ZIP_STORED else "deflated"
-        arch = write_zip(members, method)
+        members, shape = reshape_name(rng, members)
+        zvariant = rng.choice(["plain", "plain", "zip64-local", "stream", "ut-extra"])
+        arch = write_zip(members, method, zvariant, rng)
         corrupt = None
         names_once = [m[0] for m in members]
         datas = [j for j, m in enumerate(members) if m[1] == "data" and len(m[2]) >= 4 and names_once.count(m[0]) == 1]
-        if datas and rng.random() < 0.35:
+        if datas and shape is None and rng.random() < 0.35:   # (the corrupted member is recognised by its path label)
             corrupt = rng.choice(datas)
             raw = bytearray(arch)
             with zipfile.ZipFile(io.BytesIO(arch)) as zf:
                 zi = zf.infolist()[corrupt]   # the entry at this POSITION (write_zip writes one entry per member)
-                start = zi.header_offset + 30 + len(zi.filename.encode("utf-8" if zi.flag_bits & 0x800 else "cp437")) + len(zi.extra)
+                nlen, xlen = struct.unpack("<HH", arch[zi.header_offset + 26:zi.header_offset + 30])   # LOCAL header lengths
+                start = zi.header_offset + 30 + nlen + xlen
                 pos = start + rng.randrange(max(1, zi.compress_size))
             raw[pos] ^= 0x55
             arch = bytes(raw)
@@ -973,11 +1036,20 @@ def run(ctx):
             zopen, coq_opt(apath, coq_str), c_names([m[0] for m in members]), c_calls(list(out)), c_term(t)))
         infoz.append((mname, corrupt, [m[0] for m in members]))
         ctx.case(("zip", mname, corrupt, [(m[0], m[1], len(m[2])) for m in members]), len(members) >= 2,
-                 kind=f"zip:{mname}" + (":corrupt" if corrupt is not None else "") + (":dupnames" if ndup else ""))
+                 kind=f"zip:{mname}:{zvariant}" + (":corrupt" if corrupt is not None else "") + (":dupnames" if ndup else "")
+                 + (f":name-{shape}" if shape else ""))
         if corrupt is None:
-            check_members(ctx, f"zip-duplicate-member-names:{mname}" if ndup else f"zip-members:{mname}",
-                          "ZIP entry does not come out as itself" + (" (entries sharing a name)" if ndup else ""), "zip",
-                          {"method": mname, "entries_sharing_a_name": ndup}, members, arch, apath or "z.zip")
+            zkey = f"zip-duplicate-member-names:{mname}" if ndup else f"zip-members:{mname}"
+            if shape:
+                zkey = f"zip-member-name-shape:{shape}"
+            elif zvariant != "plain" and not ndup:
+                zkey = f"zip-members:{mname}:{zvariant}"
+            okz = check_members(ctx, zkey,
+                                "ZIP entry does not come out as itself" + (" (entries sharing a name)" if ndup else ""), "zip",
+                                {"method": mname, "writer": zvariant, "name_shape": shape, "entries_sharing_a_name": ndup},
+                                members, arch, apath or "z.zip")
+            if len(sweep) < 70 and i % 3 == 0:
+                sweep.append(("zip", arch, apath or "z.zip"))
         else:
             check_members(ctx, "zip-corrupt-member-aborts-archive", "a corrupt ZIP member affects other members", "zip",
                           {"method": mname, "corrupt_member": members[corrupt][0]}, members, arch, apath or "z.zip",
@@ -1002,6 +1074,7 @@ def run(ctx):
         if comp == "" and not members:
             members = [("only.txt", "data", b"only member\n")]
         members, ndup = add_duplicates(rng, members)
+        members, shape = reshape_name(rng, members)
         withsym = list(members)
         if rng.random() < 0.3:
             withsym.insert(rng.randint(0, len(withsym)), ("link%d.txt" % i, "symlink", b""))
@@ -1021,7 +1094,7 @@ def run(ctx):
         corrupt = None
         names_once = [m[0] for m in members]
         datas = [j for j, m in enumerate(members) if m[1] == "data" and len(m[2]) >= 4 and names_once.count(m[0]) == 1]
-        if comp == "" and datas and rng.random() < 0.3:
+        if comp == "" and datas and shape is None and rng.random() < 0.3:
             corrupt = rng.choice(datas)
             raw = bytearray(arch)
             with tarfile.open(fileobj=io.BytesIO(arch)) as tf:
@@ -1062,10 +1135,14 @@ def run(ctx):
         key = f"tar-duplicate-member-names:{comp or 'plain'}" if ndup else f"tar-members:{comp or 'plain'}"
         if nstreams > 1:
             key = f"tar-multi-stream-compression:{comp}"
+        if shape:
+            key = f"tar-member-name-shape:{shape}"
+        if corrupt is None and len(sweep) < 140 and i % 3 == 0:
+            sweep.append(("tar", arch, apath or "t.tar"))
         if shadow:
             key = "tar-magic-shadowed-by-first-member-name"
         check_members(ctx, key if corrupt is None else "tar-corrupt-member", "TAR member does not come out as itself",
-                      "tar", {"compression": comp or "plain", "format": fmt, "compression_streams": nstreams}, members, arch, apath or "t.tar", skip_idx=corrupt)
+                      "tar", {"compression": comp or "plain", "format": fmt, "compression_streams": nstreams, "name_shape": shape}, members, arch, apath or "t.tar", skip_idx=corrupt)
     for i in range(ctx.n(3, 20)):
         members = gen_members(rng, 4, fixtures=fixtures)
         comp = rng.choice(["", "gz", "xz"])
@@ -1082,6 +1159,17 @@ def run(ctx):
             check_members(ctx, "tar-magic-shadowed-by-first-member-name",
                           "plain TAR whose first member name starts with another format's magic bytes is misdetected",
                           "tar", {"first_member": nm}, members, arch, "s.tar")
+
+    # ================================================================= the same archives under other environments
+    # (DEBUG logging for the library, worker thread, other time zones, other cwd): results must not change
+    def sweep_fn(case):
+        fmt_, arch_, apath_ = case
+        res_, term_ = drive(arch_, apath_)
+        return ([canon(r) for r in res_], term_)
+    from common import env_sweep
+    env_sweep(ctx, "read_archive", sweep_fn, sweep,
+              describe=lambda c: {"format": c[0], "archive": c[1], "archive_path": c[2]})
+    ctx.extra["env_sweep_sample"] = {"cases": len(sweep), "by_format": {f: sum(1 for c in sweep if c[0] == f) for f in ("7z", "zip", "tar")}}
 
     # ================================================================= detection
     from sharepoint2text.parsing.extractors.archive_extractor import _detect_archive_type_optimized as det
